@@ -33,6 +33,84 @@ def nan_stores(L, names):
     return out
 
 
+CONST_ALLOC = {"zeros", "ones", "full", "empty", "zeros_like", "ones_like", "full_like", "empty_like", "array", "arange", "list", "set"}
+
+
+def _pick_pure_names(fnode, pick_names, neutral):
+    """names whose value is determined by the picks alone: every plain definition is a constant allocation / empty
+    container or an expression over pure (and neutral) names; pick accumulators qualify only if they START that way"""
+    defs = {}
+    for n in ast.walk(fnode):
+        if isinstance(n, ast.Assign):
+            for t in n.targets:
+                for x in (t.elts if isinstance(t, (ast.Tuple, ast.List)) else [t]):
+                    if isinstance(x, ast.Name):
+                        defs.setdefault(x.id, []).append(n.value if x is t else None)
+        elif isinstance(n, (ast.For, ast.comprehension)):
+            for x in ast.walk(n.target):
+                if isinstance(x, ast.Name):
+                    defs.setdefault(x.id, []).append(n.iter)
+    def const_alloc(v):
+        if isinstance(v, (ast.List, ast.Tuple, ast.Set)) and not v.elts:
+            return True
+        if isinstance(v, ast.Constant):
+            return True
+        if isinstance(v, ast.Call):
+            fn = (c01.callname(v) or "").split(".")[-1]
+            if fn in CONST_ALLOC:
+                # shape arguments may mention anything; a *_like / array(...) of data is not constant
+                if fn in ("array", "list", "set"):
+                    return not v.args or (isinstance(v.args[0], (ast.List, ast.Tuple)) and not v.args[0].elts)
+                if fn.endswith("_like"):
+                    return len(v.args) >= 2 or any(k.arg == "fill_value" for k in v.keywords) or fn in ("zeros_like", "ones_like", "empty_like")
+                return True
+        return False
+    pure = set()
+    changed = True
+    while changed:
+        changed = False
+        for name, vs in defs.items():
+            if name in pure:
+                continue
+            ok = True
+            for v in vs:
+                if v is None:
+                    ok = False
+                    break
+                if const_alloc(v):
+                    continue
+                used = names_in(v) - {"np", "numpy", "self", name} - neutral
+                if not used and any(isinstance(x, ast.Attribute) and isinstance(x.value, ast.Name) and x.value.id == "self" for x in ast.walk(v)):
+                    ok = False
+                    break
+                if not (used <= (pure | set(pick_names_sel(pick_names, defs, const_alloc)))):
+                    ok = False
+                    break
+                if not used and not isinstance(v, (ast.Name, ast.Subscript, ast.Call, ast.BinOp, ast.UnaryOp, ast.Compare)):
+                    ok = False
+                    break
+            if ok:
+                pure.add(name)
+                changed = True
+    return pure | pick_names_sel(pick_names, defs, const_alloc)
+
+
+def pick_names_sel(pick_names, defs, const_alloc):
+    """pick names that are either never plainly defined from other data (selection results) or start constant"""
+    out = set()
+    for nm in pick_names:
+        vs = defs.get(nm, [])
+        calls_only = all(v is None or const_alloc(v) or isinstance(v, (ast.Call, ast.Subscript, ast.Name, ast.BinOp)) for v in vs)
+        starts_const = any(v is not None and const_alloc(v) for v in vs)
+        data_init = any(v is not None and isinstance(v, ast.Call) and (c01.callname(v) or "").split(".")[-1] in (
+            "is_unlabeled", "is_labeled", "labeled_indices", "unlabeled_indices", "astype", "copy") for v in vs)
+        if data_init and not starts_const:
+            continue
+        if calls_only:
+            out.add(nm)
+    return out
+
+
 def check_loops(p, report, funcs, facts, rule21="R2.1", rule22="R2.2", only=None):
     for rec in c01.loop_records(funcs, facts):
         f, ff, L, S, rnames, acc, edges, fw = rec
@@ -120,6 +198,25 @@ def check_loops(p, report, funcs, facts, rule21="R2.1", rule22="R2.2", only=None
                                detail="operand is (derived from) the masked row or excludes earlier picks itself" if matched
                                else "the returned row is masked at earlier picks but the selection reads an operand "
                                     "that does not exclude them: the chosen sample can be NaN in its own row")
+        # R2.11: a NaN written into a returned row inside the selection loop marks EARLIER PICKS only: its index is built
+        # from the picks (accumulators that start empty / constant), never from data that also encodes labels
+        if rule21 == "R2.1":
+            counters = {n.id for n in ast.walk(L.target) if isinstance(n, ast.Name)} if isinstance(L, ast.For) else set()
+            neutral = set(c01._mapping_names(f)) | counters
+            pure = _pick_pure_names(f.node, pick_names, neutral)
+            for n in ast.walk(L):
+                if not (isinstance(n, ast.Assign) and c01.is_nan_expr(n.value)):
+                    continue
+                for t in n.targets:
+                    if not (isinstance(t, ast.Subscript) and base_name(t) in retu):
+                        continue
+                    ix = {x for x in (index_names(t) - neutral - {"np", "numpy"}) if x in ff.locs}
+                    bad = sorted(x for x in ix if x not in pure)
+                    report.add("R2.11", ent, f"{loop_id}: NaN store `{norm_stmt(n, 60)}` marks picks only", f"{f.file}:{n.lineno}",
+                               not bad, detail="index built from the picks" if not bad else
+                               f"`{bad[0]}` in the index is not built from the picks alone (it is initialised from other data, "
+                               f"e.g. the labels): samples that were never picked - labeled candidates - are NaN in every row and "
+                               f"can be returned with a NaN utility")
         if n21 == 0:
             # exclusion by another mechanism (distance-to-selected, shrinking pool): nothing to order
             report.add(rule21, ent, f"{loop_id}: no NaN mask indexed by the picks", f"{f.file}:{S.lineno}", True,
@@ -498,6 +595,13 @@ def run(p, report, tier):
                 "(must-dependence on `candidates` / X_cand / mapping): numbers only at offered samples needs the "
                 "offer to enter the computation", floor=20)
     check_candidate_dependence(p, report, "R2.9")
+    report.rule("R2.11", "NaN exactly at earlier picks: inside a selection loop a NaN written into a returned utilities row is "
+                "indexed by the picks (accumulators that start empty / constant, loop counters, the candidate mapping) - an "
+                "index array initialised from the labels also blanks labeled candidates that were never picked", floor=5)
+    report.rule("R2.12", "a batch is never taken as the row-wise optimum of several utility rows at once: the indices a pool "
+                "query returns do not come from an `axis=`-wise rand_argmax / argmax outside a selection loop (the rows are "
+                "independent, so one sample can win two rows and is then NaN in its own row)", floor=20)
+    check_no_parallel_selection(p, report, funcs)
     report.rule("R2.10", "the class probabilities the strategies turn into utilities without a further check are finite in "
                 "every row: ClassFrequencyEstimator.predict_proba treats rows of zero frequency separately instead of "
                 "dividing by the zero row sum (shared with C11 R11.2)", floor=1)
@@ -522,3 +626,88 @@ def run(p, report, tier):
         "statement order inside a loop body is judged by structural dominance (no goto)",
         "the numerical arg-max relation itself is the contract of rand_argmax (decided structurally by R2.5 / C18)",
     ]
+
+
+ARGSEL = {"rand_argmax", "rand_argmin", "argmax", "argmin", "nanargmax", "nanargmin"}
+
+
+def _rows_from_sequential_helper(call, defs, seq_helpers):
+    """the rows handed to the row-wise selection were produced by a project helper that selects sequentially itself (and
+    marks its picks in the later rows): backward over plain definitions and scatter stores"""
+    seen, work = set(), [call.args[0]] if call.args else []
+    while work:
+        e = work.pop()
+        for n in ast.walk(e):
+            if isinstance(n, ast.Call) and (c01.callname(n) or "") in seq_helpers:
+                return True
+            if isinstance(n, ast.Name) and n.id not in seen:
+                seen.add(n.id)
+                for d in defs.get(n.id, []):
+                    work.append(d.value)
+                for st in defs.get("[]" + n.id, []):
+                    work.append(st.value)
+    return False
+
+
+def check_no_parallel_selection(p, report, funcs):
+    facts_ = {id(f.node): c01.FnFacts(f) for f in funcs}
+    seq_helpers = {rec[0].name for rec in c01.loop_records(funcs, facts_) if rec[0].cls is None}
+    for f in funcs:
+        if f.name != "query" or f.cls is None:
+            continue
+        tree = FuncTree(f.node)
+        rets = [r for r in ast.walk(f.node) if isinstance(r, ast.Return) and r.value is not None]
+        if not rets:
+            continue
+        defs = {}
+        for n in ast.walk(f.node):
+            if isinstance(n, ast.Assign) and len(n.targets) == 1 and isinstance(n.targets[0], ast.Name):
+                defs.setdefault(n.targets[0].id, []).append(n)
+        for n in ast.walk(f.node):
+            if isinstance(n, ast.Assign) and len(n.targets) == 1 and isinstance(n.targets[0], ast.Subscript) \
+                    and base_name(n.targets[0]):
+                defs.setdefault("[]" + base_name(n.targets[0]), []).append(n)
+        bad = []
+
+        def strip(e):
+            while True:
+                if isinstance(e, ast.Subscript):
+                    # mapping[q] -> follow q;  q[:, 0] / q[0] -> follow q
+                    if isinstance(e.value, ast.Name) and e.value.id in c01._mapping_names(f) | {"mapping"}:
+                        e = e.slice
+                    else:
+                        e = e.value
+                    continue
+                if isinstance(e, ast.Call) and (c01.callname(e) or "") in ("array", "asarray", "astype", "ravel", "flatten", "copy", "int", "squeeze"):
+                    if e.args:
+                        e = e.args[0]
+                    elif isinstance(e.func, ast.Attribute):
+                        e = e.func.value
+                    else:
+                        return e
+                    continue
+                return e
+
+        def walk(e, depth, seen):
+            e = strip(e)
+            if isinstance(e, ast.Call) and (c01.callname(e) or "") in ARGSEL and any(k.arg == "axis" for k in e.keywords):
+                axv = next(k.value for k in e.keywords if k.arg == "axis")
+                st = tree.stmt_of(e)
+                in_loop = any(isinstance(o, (ast.For, ast.While)) for (_s, o, _f, _i) in tree.ancestors(st))
+                if not in_loop and not (isinstance(axv, ast.Constant) and axv.value is None) \
+                        and not _rows_from_sequential_helper(e, defs, seq_helpers):
+                    bad.append(e)
+                return
+            if isinstance(e, ast.Name) and depth < 4 and e.id not in seen:
+                for d in defs.get(e.id, []):
+                    walk(d.value, depth + 1, seen | {e.id})
+
+        for r in rets:
+            v = r.value.elts[0] if isinstance(r.value, ast.Tuple) and r.value.elts else r.value
+            walk(v, 0, set())
+        report.add("R2.12", f.qual, "returned indices are not a row-wise optimum of several rows",
+                   f"{f.file}:{(bad[0] if bad else f.node).lineno}", not bad,
+                   detail=f"{len(rets)} return(s) traced" if not bad else
+                   f"`{ast.unparse(bad[0])[:70]}` picks one winner per row in one call: the earlier picks are not excluded from the "
+                   f"later rows when the winners are taken, so the same sample can be returned twice and is NaN in its own row "
+                   f"once the marks are written afterwards")
